@@ -242,9 +242,15 @@ def r5_thread_stdout(ctx, rule):
         ctx.ok(rule, KEY, 'no stdout write among the %d call sites reachable from the keyboard thread' % n)
 
 
+def _omen_quit_order(ctx, rule):
+    # a quit noticed in the OMEN loop must not discard a guess that was already fetched (seed C12-g): emit -> quit test -> fetch
+    from . import c15
+    return c15.r2_no_generated_unemitted(ctx, rule)
+
+
 def rules(tier):
     return [('C12.R1', r1_no_liveness_exit), ('C12.R2', r2_quit_flag_writers), ('C12.R3', r3_quit_points),
-            ('C12.R4', r4_thread_write_set), ('C12.R5', r5_thread_stdout)]
+            ('C12.R4', r4_thread_write_set), ('C12.R5', r5_thread_stdout), ('C12.R6', _omen_quit_order)]
 
 
 META = {
